@@ -10,6 +10,6 @@ KINDS = ("under_constrained", "over_constrained", "returned_values_violate", "ou
          "spurious_failure", "missed_failure", "unmapped_var", "trace_t1", "trace_t2", "read_model")
 assert_repo_import()
 chk = Check("HUNT", "other", explanation="exploration", functions=[])
-specs = gen.random_struct_programs(random.Random(int(sys.argv[2])), int(sys.argv[1]))
+specs = gen.random_struct_programs(random.Random(int(sys.argv[2])), int(sys.argv[1]), randsz=(len(sys.argv) > 3 and sys.argv[3] == "randsz"))
 e1run.run_specs(chk, specs, KINDS)
 chk.finish()
